@@ -28,38 +28,38 @@ CHECKS = {
    text="At every identifier occurrence where rename to a fresh name of the right case class is accepted: edits replace whole identifier tokens spelled with the old name, are disjoint and equal the references; after applying them every identifier occurrence of every module resolves to the correspondingly shifted declaration (go-to-definition compared before/after through the position map), diagnostics are unchanged, and renaming back restores the texts.",
    note="Workspaces: 3 bases (two packages in w3) + the C08 three-package workspace; generated scoping programs join via C05's generator. Fresh names checked to be absent.", ref="5/C07"),
  "C08": dict(engine="finite product enumerator", technique="exhaustive enumeration of the finite product symbol probe x candidate name x package locality on the real rename / prepare_rename; decision-table oracle",
-   text="32 probes (every symbol kind at definition and use sites; symbols of the root package, of another local package and of a build/packages package; modules, built-ins, aliased spellings) x 43 candidate names (all keywords, valid/malformed identifiers of both cases, literals, operators, empty/space/multi-token, non-ASCII): rename must accept exactly when the table says so, never edit a dependency file, and agree with prepare_rename.",
+   text="At every identifier of every file of the base and probe workspaces (dependency files included): prepare-rename accepts exactly when rename with a valid name does, 8 malformed names are refused, no accepted rename edits or starts in a dependency file. 44 probes (every symbol kind at definition and use sites; symbols of the root package, of another local package and of a build/packages package; modules, built-ins, aliased spellings) x 43 candidate names (all keywords, valid/malformed identifiers of both cases, literals, operators, empty/space/multi-token, non-ASCII): rename must accept exactly when the table says so, never edit a dependency file, and agree with prepare_rename.",
    note="The mapping build/packages -> is_local=false is C17's; here the package graph is built directly.", ref="5/C08"),
  "C09": dict(engine="E2 type-directed enumerator + reference HM for call graphs", technique="bounded exhaustive enumeration of typing derivations (expressions constructed by typing rules against a finite type universe, one-hole discipline) and of all call digraphs x item orders on the real inference (hover); types known by construction / by a reference Hindley-Milner; compared up to renaming of type variables",
    text="Every expression derivable by the generator's typing rules to the depth bound against 15 target types is the value of a let whose binder's shown type must be the constructed type; a fixed list of pattern / lambda / case / use binders; all digraphs on <=3 unannotated functions (self loops included) x leaf kinds x ALL item orders, with expected principal types from a reference HM with SCC-wise generalisation.",
-   note="Depth 1 / graphs on 2 functions quick; depth 2 / graphs on 3 functions thorough. Failing expressions are re-checked alone (minimisation); keys name the first known-problematic construct an expression contains, else its shape.", ref="5/C09"),
+   note="Further enumerated layers: records of five shapes x every positional prefix x every ordered label selection (patterns, calls, field access; type parameters nested in field types); binders typed by their context x projections x 8 contexts; call graphs with per-function `+ 1`, parameters spelled like functions, and two-parameter functions with swapped / labelled / reordered arguments. Depth 1 / graphs on 2 functions quick; depth 2 / graphs on 3 functions thorough. Failing expressions are re-checked alone (minimisation); keys name the first known-problematic construct an expression contains, else its shape.", ref="5/C09"),
  "C10": dict(engine="E3 query sweeper in a supervised child process", technique="bounded exhaustive enumeration of workspace damage (every single token edit, truncation, item duplication/removal, import rewiring, pathological shapes) x nearby offsets x all 15 query kinds on the real Analysis API; crash containment by journaled isolated re-runs",
    text="Every variant is built as the server builds workspaces and every query kind is called at every token boundary near the damage and at a stride elsewhere; a panic is caught per call, an abort/stack overflow/hang kills the supervised child and the journaled case is confirmed in isolation.",
    note="Offsets away from the edit are strided (stated in evidence). Worker threads have 2 MiB stacks like the server's blocking pool.", ref="5/C10"),
  "C15": dict(engine="sequence explorer + stdio process driver + in-process router", technique="exhaustive enumeration of all message sequences up to length m over a 70-template grammar of valid/invalid parameters, each executed against the real server binary over stdio and against the real router in-process; reference model of allowed document outcomes",
    text="After initialize/initialized/didOpen every sequence of <=m templates (invalid positions in every direction, reversed and mid-surrogate ranges, rejected-then-valid changes, unknown/closed/untitled/non-file URIs, watched-file events for existing and vanished paths, every request kind at valid/beyond/unknown targets) is sent to a fresh server process; oracle: process alive and exits 0 after shutdown/exit, every request id answered exactly once, canary answered, each document's text is an allowed outcome (applied as denoted under LSP leniency, or forgotten).",
-   note="m=2 on the binary and in-process (quick), m=3 in-process plus change-heavy m=3 on the binary (thorough). Closed and file-watched documents are unconstrained in the text oracle.", ref="5/C15"),
- "C16": dict(engine="schedule explorer E4 (cross-process, control socket) + sequential reference session", technique="stateless model checking of the real server binary under a controlled scheduler: all interleavings of the main loop's and the blocking tasks' yield points up to a preemption bound (iterative deviation bounding), every schedule on a fresh process; differential oracle against a sequential session of the same binary",
+   note="URI shapes layer: 16 URI forms (other schemes, hosts, percent-encoding, query / fragment, directories, `..`) x all sequences of <= 2 (quick) / 3 (thorough) of that URI's own six messages, on both seams. m=2 on the binary and in-process (quick), m=3 in-process plus change-heavy m=3 on the binary (thorough). Closed and file-watched documents are unconstrained in the text oracle.", ref="5/C15"),
+ "C16": dict(engine="schedule explorer E4 (cross-process, control socket) + sequential reference session", technique="stateless model checking of the real server binary under a controlled scheduler: all interleavings of the client's sends, the main loop's and the blocking tasks' yield points up to a preemption bound (iterative deviation bounding), every schedule on a fresh process; differential oracle against a sequential session of the same binary",
    text="Hook H5/H6 make the main loop (document store updated / released, before / after apply_change) and every blocking task (start, store read, end) stop at yield points; the controller decides who runs, detects blocked threads physically (/proc thread states), and explores every schedule with <= b preemptions. Oracle: with all threads released the canary is answered (no deadlock), every request is answered exactly once with an error or the sequential session's answer for its version, final text = client's, last published diagnostics = those of the final text.",
-   note="b=1 on 4 scenarios (quick), b=2 on 6 scenarios (thorough). Salsa checkpoints inside tasks are not scheduling points (C12 covers them). The Spin closure of the design was cut (see DESIGN 8b).", ref="5/C16"),
+   note="The client is a participant (C = deliver the next message; a send is a voluntary yield). Each task stops once inside its query (first cancellation checkpoint); an edit delivered to an idle main loop must reach the loop's first yield point (no request holds the store lock across its analysis). Scenarios include edits that change nothing, diagnostics that move with every edit, and two open documents. b=1 on the scenarios of <= 3 messages (quick); b=2 on those and b=1 on the four-message one (thorough). Other salsa checkpoints are not scheduling points (C12 covers them). The Spin closure of the design was cut (see DESIGN 8b).", ref="5/C16"),
  "C17": dict(engine="configuration enumerator + in-process router on real directory trees", technique="exhaustive enumeration of project-tree configurations x open orders through the real loader (didOpen on the real router, real files), against a reference model of Gleam's project layout",
    text="64 trees (registry-style dependency, path dependency, transitive dependency, direct dependency on the transitive one, nested package root, module in src/ vs test/, nested module directories, equal module names, free-standing file) x every open order of up to k documents: for every qualified call go-to-definition must land in a file the layout model allows (or nowhere), prepareRename must refuse build/packages symbols and accept local ones, the free-standing file must answer.",
-   note="k=2 quick, k=3 thorough. Path dependencies without registry dependencies of their own. Paths compared after resolving '..'.", ref="5/C17"),
+   note="Module-naming layer: 117 trees with one module file at <src|test>/<0-2 directories>/<stem> over names {a, x, src, test}, imported under every suffix of its path. k=2 quick, k=3 thorough. Path dependencies without registry dependencies of their own. Paths compared after resolving '..'.", ref="5/C17"),
  "C18": dict(engine="E2 scope-aware generator + E3", technique="bounded exhaustive enumeration of C05's programs x every expression position on the real completions; reference resolver's visible-name map as oracle; accept-and-resolve by re-analysis",
    text="At every expression identifier of every generated program the offered value names (keywords and built-in constructors aside) must equal the names the reference resolver finds visible there (locals innermost-first, module functions/constants/constructors, unqualified imports under their local spelling, module accessors); every item replaces exactly the identifier being typed; replacing it by the item and asking go-to-definition lands on the declaration the resolver gives for that name. A fixed layer checks `module.` (exactly the public functions and constructors) and `value.` (only fields of the value's type).",
-   note="Quick: single-statement skeletons, 12 contexts; thorough: all of C05's programs. The dot layer is a fixed list.", ref="5/C18"),
+   note="Quick: single-statement skeletons, contexts with 0-1 parameters; thorough: the skeleton set of C05's quick tier. Dot completions: a fixed list plus a grid - after `module.` every subset of 8 item kinds x 3 import forms x 4 cursor contexts, after `value.` every layout of a 1-2 variant record type (exactly the common fields).", ref="5/C18"),
  "C19": dict(engine="E1 input-space enumerator + in-process router", technique="bounded exhaustive enumeration of documents x highlight lists through the real relative encoder, decoded by a reference LSP client; end-to-end runs of semanticTokens/full through the real router compared with the analysis' own classification of every identifier",
    text="Encoder: every document up to L symbols over {a, space, LF, 2-byte, 4-byte} x every subset of its identifier runs as highlight list x tag assignments: the stream must decode to exactly the reference conversion, strictly increasing, inside lines, no overflow. End to end: every token of the stream is a function / constructor / module identifier with the right type and every such USE is present (declarations and import items may be tagged).",
-   note="The end-to-end layer uses fixed projects (not exhaustive, reported as such); its classification oracle is relational (go-to-definition target kind, hover type).", ref="5/C19"),
+   note="semanticTokens/range is requested from every line start to every token boundary / line end: tokens of the full stream inside the range must be there, nothing else. The end-to-end layer uses fixed projects (not exhaustive, reported as such); its classification oracle is relational (go-to-definition target kind, hover type).", ref="5/C19"),
  "C20": dict(engine="E3 query sweeper + range monitor", technique="bounded exhaustive enumeration of workspace variants x offsets x all query kinds; invariant monitor on every reported range",
    text="Every range in every answer of the C10 sweep (diagnostics, hover, goto focus/full, references, highlights, rename edits, prepare-rename, completion source ranges, semantic highlights) is checked: file belongs to the workspace, within bounds, on character boundaries, focus inside full, name-like ranges start and end on token boundaries.",
    note="'Covers a whole token' is checked as: starts at a token start and ends at a token end (go-to-definition reports a whole field or spread pattern as focus).", ref="5/C20"),
  "C11": dict(engine="history explorer (stateless, state = history)", technique="bounded exhaustive exploration of all change/query histories up to depth n on the real AnalysisHost, differential oracle against two fresh instances queried in different orders; hash-seed layer via getrandom shim",
    text="All histories of <=n (change, query-menu) steps over 28 changes (12 versions of a, 8 of b, add/remove file with new roots, add/remove dependency edge, root reordering, same-again) x 6 menus are replayed on a new host each; the final full sweep of every query at every token boundary must equal a fresh host's and a second fresh host's queried in reverse order.",
-   note="Depth: quick 2, thorough 3 (menus restricted at depth 3; reported as cap). Hidden salsa state is not hashable, so the state is the history. Hash seeds are a finite list, reported as such.", ref="5/C11"),
+   note="Batched layer: all pairs (quick) / triples (thorough) of changes travelling in ONE Change object. The two packages share a module name. Depth: quick 2, thorough 3 (menus restricted at depth 3; reported as cap). Hidden salsa state is not hashable, so the state is the history. Hash seeds are a finite list, reported as such.", ref="5/C11"),
  "C12": dict(engine="schedule explorer E4 (in-process, salsa checkpoints)", technique="exhaustive schedule exploration at salsa's cancellation checkpoints: the writer is started while the reader is parked at its i-th checkpoint, for every i (one reader) and for strided pairs x both release orders (two readers), on the real AnalysisHost/Analysis",
    text="Cancellation is observed only at salsa query entry; hook H2 turns each WillCheckCancellation into a scheduling point, hook H3 lets the controller see the flag. Every schedule runs on the real code; oracle: answer = pre-change answer or Cancelled, never a panic or a mixture; a parked reader must be cancelled at the checkpoint it is parked at; the writer returns; later snapshots equal a fresh analysis.",
-   note="Trusted base: salsa, parking_lot between two checkpoints. Two-reader pairs are strided (cap reported).", ref="5/C12"),
+   note="Server-level layer (real binary under the yield-point scheduler): each of 11 request kinds is stopped at the first cancellation checkpoint of its analysis, then a didChange must pass the document store. Scenarios include a change that carries only a package graph. Trusted base: salsa, parking_lot between two checkpoints. Two-reader pairs are strided (cap reported).", ref="5/C12"),
  "C13": dict(engine="stateright BFS + in-process router", technique="explicit-state model checking (stateright BFS) with the real Vfs/convert code as transition function, reference LSP client as model; plus exhaustive two-change notifications through the real Server router",
    text="All client documents up to L symbols are states; every valid (start,end,replacement) edit and full-text change is a transition executed on the real Vfs::change_file_content via convert::from_range and compared with the reference client; the line-map freshness invariant checked in every state justifies deduplicating on client text. The per-change loop of on_did_change is covered by all ordered pairs of edits in one notification.",
    note="Bounds in evidence. Trusted: the reference client model (LSP 3.17 positions); the syntax-tree dump as observation of the server text.", ref="5/C13"),
